@@ -1395,23 +1395,27 @@ func (c *cluster) markResizeInstructionComplete(complete *ResizeInstructionCompl
 		return fmt.Errorf("resize job %d: completion does not name a node", complete.JobID)
 	}
 
-	// Abort the job if an error exists in the complete object.
-	if complete.Error != "" {
-		j.result <- resizeJobStateAborted
-		return errors.New(complete.Error)
-	}
-
 	j.mu.Lock()
 	defer j.mu.Unlock()
 
+	// Nobody reads the result of a job that has ended: a late or repeated
+	// completion must be refused, not block on the result channel.
 	if j.isComplete() {
 		return fmt.Errorf("resize job %d is no longer running", j.ID)
+	}
+
+	// Abort the job if an error exists in the complete object.
+	if complete.Error != "" {
+		j.state = resizeJobStateAborted
+		j.result <- resizeJobStateAborted
+		return errors.New(complete.Error)
 	}
 
 	// Mark host complete.
 	j.IDs[complete.Node.ID] = true
 
 	if !j.nodesArePending() {
+		j.state = resizeJobStateDone
 		j.result <- resizeJobStateDone
 	}
 
